@@ -367,7 +367,7 @@ def run_case(case, ctx, st):
                 fitted = False
         elif op in ("path", "crash_path"):
             X2, y2 = (Xref, yref) if rng.random() < 0.5 else other_data()
-            if y2 is None and rng.random() < 0.4:
+            if y2 is None and rng.random() < (0.75 if params.get("dynamic") else 0.4):
                 # "y: ... Otherwise, it is not used": a matrix handed to a model that does not ask for one
                 y2 = gen.sym_matrix(rng, len(X2), "psd")
                 ctx.count("paths_with_unused_y")
